@@ -329,7 +329,7 @@ func (b *GRPCBroker) Accept(id uint32) (net.Listener, error) {
 		verifhook.Point("grpcbroker.accept.mux-mid")
 
 		go func() {
-			err := b.listenForKnocks(id)
+			err := b.listenForKnocks(id, p)
 			if err != nil {
 				log.Printf("[ERR]: error listening for knocks, id: %d, error: %s", id, err)
 			}
@@ -486,8 +486,12 @@ func (b *GRPCBroker) Close() error {
 	return nil
 }
 
-func (b *GRPCBroker) listenForKnocks(id uint32) error {
-	p := b.getServerStream(id)
+// listenForKnocks answers the knocks that arrive in p, the pending entry of
+// the listener accepted for id, until that listener is closed. It is handed
+// the entry rather than looking it up by id: if the listener has been closed
+// by the time this goroutine gets to run, a look-up would create a fresh entry
+// that nothing ever closes.
+func (b *GRPCBroker) listenForKnocks(id uint32, p *gRPCBrokerPending) error {
 	for {
 		select {
 		case msg := <-p.ch:
